@@ -183,7 +183,7 @@ def run_batch(crate, hs, log_dir, jobs):
     events = []
     for m in BATCH_BLOCK_RE.finditer(out):
         events.append((m.start(), "start", m.group(1), m.group(2).strip()))
-    for m in re.finditer(r"Thread (\d+): \nVERIFICATION RESULT:(.*?)(?=\nThread \d+: |\nManual Harness Summary|\Z)", out, re.S):
+    for m in re.finditer(r"Thread (\d+): \n(.*?)(?=\nThread \d+: |\nManual Harness Summary|\Z)", out, re.S):
         events.append((m.start(), "result", m.group(1), m.group(2)))
     events.sort()
     for _, kind, th, payload in events:
@@ -201,6 +201,9 @@ def run_batch(crate, hs, log_dir, jobs):
             mc = re.search(r"\*\* (\d+) of (\d+) cover properties satisfied", payload)
             mf = re.search(r"\*\* (\d+) of (\d+) failed(?: \((\d+) unreachable\))?", payload)
             mt = re.search(r"Verification Time: ([0-9.]+)s", payload)
+            if not ok and "VERIFICATION:- FAILED" in payload and "CBMC timed out" in payload:
+                results[name] = _batch_result(crate, h, full, "undecided", "timeout (%ds) in batch run" % h.get("timeout", 600), 0, 0, None, [], log_dir)
+                continue
             if ok and mc and int(mc.group(1)) >= 1 and mf and int(mf.group(1)) == 0:
                 stubs = re.findall(r"Thread %s:\s+- Stub: ([^\n]+)" % th, out)
                 results[name] = {
@@ -215,4 +218,24 @@ def run_batch(crate, hs, log_dir, jobs):
                     "cmd": "cd %s && GIX_VERIF_DIR=%s CARGO_TARGET_DIR=%s cargo kani %s --harness %s --exact" % (
                         crate_cwd(crate), VERIF, target_dir(crate), " ".join(KANI_FLAGS[:4]), full),
                 }
+    # harnesses that were started but never reported (killed by the harness timeout / out of memory): undecided, no re-run
+    started = set(cur.values())
+    for h in hs:
+        full = prefix + h["name"]
+        if h["name"] not in results and full in started and to:
+            results[h["name"]] = _batch_result(crate, h, full, "undecided", "no result in batch run (timeout)", 0, 0, None, [], log_dir)
     return results
+
+
+def _batch_result(crate, h, full, status, reason, n_checks, n_success, secs, stubs, log_dir):
+    return {
+        "unit": crate["unit"], "harness": h["name"], "full_name": full, "status": status, "reason": reason,
+        "failed_checks": [], "n_checks": n_checks, "n_success": n_success, "covers": None, "wall_s": secs or 0.0,
+        "solver_s": secs, "concrete_vals": None, "stubs": stubs,
+        "log": os.path.join(log_dir, "%s%s.batch.log" % (crate["unit"], crate.get("unit_suffix", ""))),
+        "replay_dir": replay_dir(crate), "in_crate": crate["mode"] == "in_crate", "repo_crate": crate.get("repo_crate"),
+        "kind": h.get("kind", "bounded"), "bound": h.get("bound", ""), "props": h.get("props", []),
+        "functions": h.get("functions", crate.get("functions", [])),
+        "cmd": "cd %s && GIX_VERIF_DIR=%s CARGO_TARGET_DIR=%s cargo kani %s --harness %s --exact" % (
+            crate_cwd(crate), VERIF, target_dir(crate), " ".join(KANI_FLAGS[:4]), full),
+    }
